@@ -404,6 +404,21 @@ Definition tr_match (tol : Qc) (m : res (list Qc * list Qc)) (o : obs (list Qc *
             if not lr and not rr and l > r and rng.random() < 0.7:
                 l, r = r, l
             cases.append({"x": x, "y": y, "l": l, "r": r, "lr": lr, "rr": rr, "container": pick_container(rng)})
+        # integer abscissae beyond 2^53 (epoch nanoseconds, sampled every 100 ns) held in an int64 array, integer bounds: neighbouring
+        # samples are different integers but the same float64 — the run is selected among the samples as they are
+        for _ in range(8 if tier == "quick" else 60):
+            N = rng.randint(4, 9)
+            base = 1_700_000_000_000_000_000 + rng.randint(0, 10 ** 6)
+            xs = [base]
+            for _k in range(N - 1):
+                xs.append(xs[-1] + 100 * rng.randint(1, 3))
+            i = rng.randint(0, N - 3)
+            j = rng.randint(i + 1, N - 1)
+            l = xs[i] + rng.choice([0, 0, 50, -50])
+            r = xs[j] + rng.choice([0, 0, 50, -50])
+            if l >= r:
+                l, r = xs[i], xs[j]
+            cases.append({"x": xs, "y": gens.values(rng, N), "l": l, "r": r, "lr": False, "rr": False, "container": "bigint"})
         return cases
 
     def run(self, c):
@@ -411,6 +426,9 @@ Definition tr_match (tol : Qc) (m : res (list Qc * list Qc)) (o : obs (list Qc *
         x = np.array(c["x"], dtype=float)
         y = np.array(c["y"], dtype=float)
         try:
+            if c.get("container") == "bigint":
+                rx, ry = truncate(np.array(c["x"], dtype=np.int64), y, c["l"], c["r"], c["lr"], c["rr"])
+                return {"x": [int(v) for v in np.asarray(rx).tolist()], "y": np.asarray(ry, dtype=float).tolist()}
             if c.get("container", "float64") != "float64":          # the same numbers as int64 arrays / Python lists
                 (rx, ry), notes = truncate(as_container(c["x"], c["container"]), as_container(c["y"], c["container"]),
                                            c["l"], c["r"], c["lr"], c["rr"]), {}
